@@ -20,6 +20,7 @@ func createLockFile(name string, perm os.FileMode) (LockFile, bool, error) {
 			f, err = os.OpenFile(name, os.O_RDWR, perm)
 			if os.IsNotExist(err) {
 				// The owner removed the file in the meantime, start over.
+				verifYield("lock.retry")
 				continue
 			}
 		}
@@ -45,6 +46,7 @@ func createLockFile(name string, perm os.FileMode) (LockFile, bool, error) {
 		current, err := os.Stat(name)
 		if err != nil || !os.SameFile(locked, current) {
 			_ = f.Close()
+			verifYield("lock.retry")
 			continue
 		}
 		// Every owner marks the file as used. A marked file means that another process owned the lock
